@@ -485,14 +485,16 @@ class Ctx:
             lines = orig.decode().splitlines(keepends=True)
             heads = [i for i, ln in enumerate(lines) if ln.startswith(">")]
             old = list(lines)
-            if len(heads) > 1 and rng.random() < 0.5:
-                old = old[: heads[-1]]
-            for i in range(1, len(old)):
-                if not old[i].startswith(">") and rng.random() < 0.4:
-                    old[i] = "N" * (len(old[i]) - 1) + "\n"
-                    break
+            # always the same names with other residues somewhere (a stale cache that only a
+            # comparison of mtimes can tell from a fresh one); sometimes a record less as well
+            seq_lines = [i for i in range(1, len(old)) if not old[i].startswith(">") and any(c in "ACGTacgt" for c in old[i])]
+            if seq_lines:
+                i = rng.choice(seq_lines)
+                old[i] = "N" * (len(old[i]) - 1) + "\n"
             else:
                 old.append(">extra_old\nACGTACGT\n")
+            if len(heads) > 1 and rng.random() < 0.25:
+                old = old[: heads[-1]]
             Path(asm).write_text("".join(old))
             self._drop_cache("w1")
             index_mod.FastaIndex(Path(asm)).run_indexing()
